@@ -80,6 +80,11 @@ class InterpBase(CtxMixin):
         if name in self.stub_modules:
             return self.stub_modules[name]
         path = self.find_module_file(name)
+        if name.startswith('gym_gridverse.envs.yaml') or name in ('gym_gridverse.rendering', 'gym_gridverse.recording'):
+            # YAML factory / schema validation / rendering: not interpreted (C17 is not applicable);
+            # imported names become opaque values, any use of them is Unsupported
+            path = None
+            self.dropped.add(name)
         if path is None:
             m = ModuleModel(name)
             m.opaque = True
